@@ -374,6 +374,9 @@ func (cur *FieldMask) GetPath(desc *thrift_reflection.TypeDescriptor, path strin
 				if !cur.All() {
 					return nil, false
 				}
+				// NOTICE: as addPath does, '*' continues on the shared mask with the same descriptor
+				cur = cur.all
+				continue
 			} else {
 				return nil, false
 			}
